@@ -92,7 +92,7 @@ type progOpts struct {
 	depth      int
 	noMsg      bool
 	noLog      bool
-	illTyped   int // percent chance of replacing an expression by one of a random kind
+	illTyped   int  // percent chance of replacing an expression by one of a random kind
 	jsSafe     bool // stay inside the subset both backends define (C04)
 	taint      bool
 	directives bool
@@ -114,7 +114,7 @@ type progGen struct {
 	alias map[string]map[string]bool // namespace of the caller's file -> namespaces it aliases (scope option)
 }
 
-func (g *progGen) feat(s string) { g.feats[s]++ }
+func (g *progGen) feat(s string)      { g.feats[s]++ }
 func (g *progGen) pk(ks ...kind) kind { return ks[g.r.Intn(len(ks))] }
 
 func (g *progGen) fresh(prefix string) string {
